@@ -71,6 +71,7 @@ PROPS = {
         "level_note": POOL_NOTE,
         "lean_modules": ["Vipnode.Props.C02"],
         "streams": pool_streams(60, 600) + pool_streams(150, 2000, gen="pool-billing", prefix="billing"),
+        "monitor": monitors.c02_billing,
     },
     "C03": {
         "level_text": "The minimum-balance decision logic is stated outright in both directions (connect_refused_iff, update_cutoff_iff, hosts_never_refused, cutoff_disconnects) as Lean theorems over the balance-manager and pool models, which are compared with the real code on both drivers, with deposits injected through the contract proxy.",
@@ -89,7 +90,10 @@ PROPS = {
         "level_text": "Strictly increasing accepted nonces per identity and at-most-once acceptance for every history (accepted_strictly_increasing, at_most_once, replay_rejected), rejection of stale nonces, independence of identities, at most one accepted copy under every schedule of optimistic transactions (racing_duplicates) and unobservability of the badger TTL for every history (ttl_safe) are Lean theorems about the nonce table model; the model is compared with both drivers at store level and through signed RPCs, and concurrent duplicates / TTL expiry are exercised on the real drivers.",
         "level_note": "Theorems are about Store.checkAndSaveNonce, the optimistic-transaction model txStep and the expiring table model; tie: store and pool correspondence streams (sampled), concurrent duplicate submissions on both drivers, a real TTL expiry run. Trusted: badger conflict detection and TTL implementation.",
         "lean_modules": ["Vipnode.Props.C05"],
-        "streams": store_streams(150, 1500) + pool_streams(100, 1000, gen="pool-nonce", prefix="nonce") + conc_streams(8, 120),
+        "streams": store_streams(150, 1500) + pool_streams(100, 1000, gen="pool-nonce", prefix="nonce") + conc_streams(8, 120) + [
+            {"name": "nonce-ttl", "component": "noncettl", "opts": {}, "cases": {"quick": 2, "thorough": 24}, "no_shrink": True},
+        ],
+        "monitor": monitors.c05_nonce,
         "race": True,
     },
     "C06": {
@@ -112,13 +116,14 @@ PROPS = {
         "level_note": POOL_NOTE + " The order in which acknowledgements arrive is not modelled (replies are compared as sets); the 5 s whitelist timeout is exercised with a shorter request deadline.",
         "lean_modules": ["Vipnode.Props.C08"],
         "streams": pool_streams(60, 600) + pool_streams(150, 1500, gen="pool-peers", prefix="peers"),
-        "monitor": monitors.c08_peer_reply,
+        "monitor": monitors.c08_acknowledged,
     },
     "C09": {
         "level_text": "callable_iff: after every history of registrations and closes the registry lets the pool call host h on connection c exactly when h's most recent registration was on c and c was not closed since; close_old_keeps_new, closed_not_callable, requests_use_current_registration, numRemotes_eq. Compared with the real registry (connect over distinct connection objects, CloseRemote, NumRemotes, which connection receives vipnode_whitelist).",
         "level_note": POOL_NOTE + " Registry steps are atomic (pool mutex); a close racing an in-flight request is covered by requests_use_current_registration for requests that start after the close.",
         "lean_modules": ["Vipnode.Props.C09"],
         "streams": pool_streams(150, 1500, gen="pool-peers", prefix="registry"),
+        "monitor": monitors.c09_registry,
     },
     "C10": {
         "level_text": "no_lost_update and schedule_independent (after any interleaving of acknowledged balance updates every wallet holds its initial credit plus the deltas addressed to it), peers_state_serialisable (the node and peer tables after any interleaving equal those of the serial execution in commit order, the commit point of a keep-alive being its UpdateNodePeers step: np_of_schedule), final_state_serialisable_partial, plus C05's racing_duplicates/at_most_once for nonce decisions, are Lean theorems over the atomic steps of the store. The full statement (one serial order of whole requests) is kept visible as FinalStateSerialisable; its excluded point (two in-flight keep-alives of one node) is proved to double-bill in the model (same_node_double_billing_counterexample), reproduced deterministically on the real pool and listed as a known finding. Snapshots: every balance and node record ever handed out is re-read after every later operation of the store streams. Real goroutines run the conc workloads on both drivers; their final states must equal the schedule-independent prediction.",
